@@ -76,7 +76,10 @@ FINDING_DEV = {
     "KF-C14-03": ("Odg!MissingReturnedEmpty", lambda c: c["fmt"] == "odg" and _has(c, lambda a: _missing(a) or _dotted(a))),
     "KF-C14-04": ("Odf!HrefVerbatim", lambda c: c["fmt"] in ODF and _has(c, _dotted)),
     "KF-C14-05": ("Epub!ManifestOrder", lambda c: c["fmt"] == "epub" and c["order"] != sorted(c["order"])),
-    "KF-C14-06": ("Ooxml!JpegFillBytesNotSkipped", lambda c: c["fmt"] in ("docx", "pptx", "xlsx") and _anchored(c, "fill")),
+    "KF-C14-08": ("Xlsx!GroupedPictureSkipped", lambda c: c["fmt"] == "xlsx" and _has(c, lambda a: a.get("nest"))),
+    "KF-C14-09": ("Odp!GroupedFrameSkipped", lambda c: c["fmt"] == "odp" and _has(c, lambda a: a.get("nest"))),
+    "KF-C14-10": ("Docx!NestedAnchorsLast", lambda c: c["fmt"] == "docx" and len(c["anchors"]) >= 2
+                  and _has(c, lambda a: a.get("nest") in ("tc", "sdt"))),
     "KF-C14-07": ("Name!ContentTypeFromExtension", lambda c: c["fmt"] in ("docx", "pptx", "xlsx") + ODF and _anchored(c, "noext")),
 }
 FIXTURE_FINDING_DEV = {}
@@ -157,11 +160,16 @@ def concretise(case, fmt, rng):
     anchors = []
     pdf_turn = [rng.randrange(60)]
     rtf_turn = [rng.randrange(96)]
+    nest_turn = [rng.randrange(60)]
     for a in case["anchors"]:
         cands = [{"mode": t["mode"], "abs": bool(t["abs"]), "segs": [seg(s) for s in t["segs"]], "to": t["to"]}
                  for t in a["cands"]]
         an = {"unit": a["unit"], "cands": cands, "link": a["link"], "fw": 38 if fmt in ODF else 0,
               "fh": 38 if fmt in ODF else 0}
+        # grouping construct around the anchor (shape groups, table cells, content controls, text boxes, figure ...):
+        # taken in turn per format; it never changes what must be returned
+        from ..c14_writers import NESTS
+        an["nest"] = NESTS[fmt][(nest_turn[0] + len(anchors)) % len(NESTS[fmt])] if (nest_turn[0] + len(anchors)) % 5 < 3 else ""
         if fmt == "xlsx":
             an["atype"] = rng.choice(["one", "two", "abs"])
             an["ext"] = rng.choice([(100, 100), (952500, 476250), (1905000, 952500)])
@@ -219,7 +227,8 @@ def header(conc):
             **({"sheetrels": [[str(u)] + v for u, v in sorted(conc["sheetrels"].items())]} if conc.get("sheetrels") else {}),
             "media": [{"part": m["part"], "kind": m["kind"], "w": m["w"], "h": m["h"], "var": m["var"],
                        "fill": bool(m.get("fill")), "noext": bool(m.get("noext"))} for m in conc["media"]],
-            "anchors": [dict({"unit": a["unit"], "cands": a["cands"], "ref": a["ref"], "fw": a["fw"], "fh": a["fh"]},
+            "anchors": [dict({"unit": a["unit"], "cands": a["cands"], "ref": a["ref"], "nest": a.get("nest", ""),
+                              "fw": a["fw"], "fh": a["fh"]},
                              **({"pfilter": a["pfilter"]} if "pfilter" in a else {}),
                              **({"pict": f"wrap={a['wrap']} eol={'CRLF' if a['eol'] != chr(10) else 'LF'} crop={int(a['crop'])} "
                                          f"scale={int(a['scale'])} blipuid={int(a['blipuid'])}"} if "wrap" in a else {}))
@@ -352,8 +361,8 @@ def describe(t, tv):
                 f"{[(u['n'], [(r['m'], r['n'], r['u']) for r in u['imgs']]) for u in evs[0]['U']]}")
     what = "iterate_images()" if tv.reached == 0 else "unit get_images() views"
     anchors = [(a["unit"], [("ext" if x["mode"] == "external" else ("inline:%d%s" % (x["to"], " /Filter " + a["pfilter"] if "pfilter" in a else ""))
-                             if x["mode"] == "inline" else ("/" if x["abs"] else "") + "/".join(x["segs"])) for x in a["cands"]])
-               for a in c["anchors"]]
+                             if x["mode"] == "inline" else ("/" if x["abs"] else "") + "/".join(x["segs"])) for x in a["cands"]]
+                + (["in " + a["nest"]] if a.get("nest") else [])) for a in c["anchors"]]
     media = [("/".join(m["part"]), m["kind"] + ":" + m.get("var", ""), m["w"], m["h"]) for m in c["media"]]
     extra = (f" sheet relationships {c['sheetrels']};" if c.get("sheetrels") else "") + \
             (f" pict layouts {[a['pict'] for a in c['anchors']]};" if any("pict" in a for a in c["anchors"]) else "")
